@@ -253,16 +253,44 @@ def rule_get(F, R):
         elif "tensor_vector_storage_t, double, 1> &" in p["t"]:
             desc = p["d"]
     cfg = f.cfg
+    # the predicate itself: has_descent(d) <=> dg(d) < 0 (strict)
+    hd = F.one("nano::solver_state_t::has_descent")
+    hrets = [x for x in hd.nodes() if x["k"] == "return"]
+    hd_ok = len(hrets) == 1 and pp(hrets[0]["c"][0]) in ("(dg(%s) < 0)" % hd.params[0]["n"], "(dg(%s) < 0.0)" % hd.params[0]["n"])
+    R.check(hd_ok, "R-C07-2", "has_descent predicate", hd.loc(), "has_descent(d) is the strict test dg(d) < 0",
+            "has_descent is no longer `dg(d) < 0`: " + (pp(hrets[0]["c"][0]) if hrets else "?"))
+
+    def is_descent_test(node):
+        """(matches, polarity): the condition holds exactly when the direction is a descent direction (polarity True)"""
+        inner, neg = strip_not(node)
+        if inner is None:
+            return None
+        if is_call(inner, "nano::solver_state_t::has_descent") and ref_decl(obj(inner)) == st and ref_decl(args(inner)[0]) == desc:
+            return not neg
+        if inner["k"] == "bin" and inner["op"] in ("<", ">"):
+            a, b = inner["c"]
+            if inner["op"] == ">":
+                a, b = b, a
+            aa = skip(a)
+            d = ref_decl(aa)
+            if d is not None:       # a local holding dg
+                var, _ = find_var(f, d)
+                aa = skip(var["c"][0]) if var is not None and var.get("c") else aa
+            if is_call(aa, "nano::solver_state_t::dg") and ref_decl(obj(aa)) == st and ref_decl(args(aa)[0]) == desc and literal_value(b) == 0:
+                return not neg      # dg < 0
+        return None
+
     guard = None
     for b in cfg.blocks.values():
-        if b.cond is None:
+        if b.cond is None or len(b.succ) != 2:
             continue
-        inner, neg = strip_not(b.cond)
-        if is_call(inner, "nano::solver_state_t::has_descent") and ref_decl(obj(inner)) == st and ref_decl(args(inner)[0]) == desc:
-            guard = (b, neg)
+        pol = is_descent_test(b.cond)
+        if pol is not None:
+            guard = (b, not pol)
     inst = "lsearchk_t::get"
     if guard is None:
-        R.bad("R-C07-2", inst, f.loc(), "no test of state.has_descent(descent) on the given state and direction")
+        R.bad("R-C07-2", inst, f.loc(), "get() does not refuse exactly the directions with !(dg(d) < 0): no has_descent(descent) / dg(descent) < 0 test "
+              "on the given state and direction (a test such as dg > 0 lets dg == 0 and NaN through)")
         return
     b, neg = guard
     fail_succ = b.succ[0] if neg else b.succ[1]      # edge on which has_descent is false
